@@ -217,6 +217,7 @@ pub uninterp spec fn iter_seq<X, I>(i: I) -> Seq<X>;
 pub broadcast proof fn ax_iter_seq_vec<X>(v: Vec<X>) ensures #[trigger] iter_seq::<X, Vec<X>>(v) == v@ { admit(); }
 pub assume_specification<X, AL: std::alloc::Allocator, I: IntoIterator<Item = X>> [<Vec<X, AL> as Extend<X>>::extend] (s: &mut Vec<X, AL>, it: I)
     ensures final(s)@ == old(s)@ + iter_seq::<X, I>(it);
+pub assume_specification<X: Default> [core::mem::take::<X>] (dest: &mut X) -> (r: X) ensures r == *old(dest);
 pub open spec fn skipped(e: ResultEntry) -> bool { e.0.id == 25 || e.0.id == 19 }
 // URIs of the reference messages among the first n items, in order
 pub open spec fn refs_of(items: Seq<ResultEntry>, n: int) -> Seq<String> decreases n {
@@ -257,6 +258,27 @@ impl EntriesOnly {
         // end of stream: everything that was left was skipped, all reference URIs collected
         r matches Ok(None) ==> (forall|j: int| 0 <= j < old(stream).items@.len() ==> skipped(#[trigger] old(stream).items@[j]))
             && final(self).refs@ == old(self).refs@ + refs_of(old(stream).items@, old(stream).items@.len() as int), //# C10.entries_only_end_of_stream_after_skipping_the_rest
+//@end
+
+//@lift name=EntriesOnly::finish file=src/adapters.rs impl="impl<'a, S, A> Adapter<'a, S, A> for EntriesOnly" fn=finish
+//@ sub "stream: &mut SearchStream<'a, S, A>" => "stream: &mut SearchStream"
+//@ ret r
+//@ insert entry
+        proof { assert forall|v: Vec<String>| #[trigger] iter_seq::<String, Vec<String>>(v) == v@ by { ax_iter_seq_vec::<String>(v); } }
+//@ spec
+    ensures
+        r.rc == stream_result(*old(stream)).rc && r.matched == stream_result(*old(stream)).matched && r.text == stream_result(*old(stream)).text
+            && r.ctrls == stream_result(*old(stream)).ctrls, //# C10.entries_only_finish_keeps_the_streams_result
+        r.refs@ == stream_result(*old(stream)).refs@ + old(self).refs@, //# C10.entries_only_finish_appends_collected_referrals
+//@end
+
+//@lift name=EntriesOnly::start file=src/adapters.rs impl="impl<'a, S, A> Adapter<'a, S, A> for EntriesOnly" fn=start
+//@ sub "stream: &mut SearchStream<'a, S, A>" => "stream: &mut SearchStream"
+//@ ret r
+//@ spec
+    ensures final(self).refs@.len() == 0, //# C10.entries_only_start_forgets_old_referrals
+        final(stream).started@ == Some(Started { controls: old(stream).ldap.controls, timeout: old(stream).ldap.timeout,
+                    search_opts: old(stream).ldap.search_opts, chan: old(stream).ldap.chan }),
 //@end
 }
 
